@@ -13,7 +13,7 @@ use crate::pos::{d32, tree_of};
 use crate::spec::D32;
 use crate::trap;
 
-const VENDORS: [&str; 4] = ["com.example", "org.acme", "com.example.sub", ""];
+const VENDORS: [&str; 6] = ["com.example", "org.acme", "com.example.sub", "", "com.Example", "ORG.ACME"];
 const CONFORMS: [&str; 3] = ["https://example.com/v1", "https://example.com/v2", "urn:x"];
 
 fn err_kind(e: &anyhow::Error) -> String {
@@ -30,6 +30,15 @@ pub fn run(ctx: &mut Ctx) {
         let mut rng = ctx.rng(case);
         let (_m, base) = universe(&mut rng, GenCfg::small(), case);
         let base = if base.is_assertion() || base.is_obscured() { Envelope::new("holder") } else { base };
+        // the random holder may carry 'attachment' assertions with arbitrary objects of its own (the
+        // generator uses known-value predicates freely): start without them
+        let base = {
+            let mut b = base.clone();
+            for a in base.assertions_with_predicate(known_values::ATTACHMENT) {
+                b = b.remove_assertion(a);
+            }
+            b
+        };
         // a third of the holders already have obscured parts (never the root itself)
         let base_plain = base.clone();
         let base = if case % 3 == 0 {
@@ -120,6 +129,11 @@ pub fn run(ctx: &mut Ctx) {
             }
             match trap::guard(|| (cont.add_to_envelope(base.clone()), Attachments::try_from_envelope(&e))) {
                 Ok((via, back)) => {
+                    // applying the container to an envelope that already carries (some of) its attachments
+                    // changes nothing
+                    if env_bytes(&cont.add_to_envelope(e.clone())) != env_bytes(&e) || env_bytes(&cont.add_to_envelope(via.clone())) != env_bytes(&via) {
+                        ctx.violation("container/reapply-changes", "Attachments::add_to_envelope onto an envelope that already holds the attachments changed it", replay());
+                    }
                     if env_bytes(&via) != env_bytes(&e) {
                         ctx.violation("container/add_to_envelope-differs", "Attachments::add_to_envelope gives another envelope than add_attachment", replay());
                     }
